@@ -741,6 +741,19 @@ func (cc *ClusterContext) processAllocations(request *si.AllocationRequest) {
 		}
 
 		alloc := objects.NewAllocationFromSI(siAlloc)
+		if alloc == nil {
+			// the only allocation that cannot be converted is a placeholder without a task group: tell the shim
+			rejectedAllocs = append(rejectedAllocs, &si.RejectedAllocation{
+				AllocationKey: siAlloc.AllocationKey,
+				ApplicationID: siAlloc.ApplicationID,
+				Reason:        "invalid allocation: placeholder without a task group name",
+			})
+			log.Log(log.SchedContext).Error("Invalid allocation update requested by shim: placeholder without task group name",
+				zap.String("partition", siAlloc.PartitionName),
+				zap.String("applicationID", siAlloc.ApplicationID),
+				zap.String("allocationKey", siAlloc.AllocationKey))
+			continue
+		}
 
 		_, newAlloc, err := partition.UpdateAllocation(alloc)
 		if err != nil {
